@@ -44,6 +44,9 @@ TABLE = {
     "c01_merge_mixed_types_allowed.diff": ("contracts.c01b", "_attempt_wire_merge", "left simple, right simple"),
     "c01_merge_subtraction_merged.diff": ("contracts.c01b", "_attempt_wire_merge", "left simple, right simple"),
     "c01_merge_reuse_keeps_old_members.diff": ("contracts.c01b", "_attempt_wire_merge", "left own, right simple"),
+    "c08_layout_final_failure_silent.diff": ("contracts.c08", "plan_layout", None),
+    "c08_layout_no_retry.diff": ("contracts.c08", "plan_layout", None),
+    "c08_layout_retry_keeps_state.diff": ("contracts.c08", "plan_layout", None),
     "c08_mark_occupied_row_only.diff": ("contracts.c08", "mark_occupied", None),
     "c14_zero_step_via_variable.diff": ("contracts.c14", "visit_ForStmt", "variable"),
     "c06_enable_integer_bare.diff": ("contracts.c16b", "lower_assign_stmt", "entity.property"),
@@ -209,6 +212,9 @@ TABLE.update({
     "c02_gate_members_not_locked.diff": ("box", "contracts.c02:locked_colors:locked_colors_arg_sets", None),
     "c02_scalar_operand_locked_red.diff": ("box", "contracts.c02:locked_colors:locked_colors_arg_sets", None),
     "c04_feedback_not_locked.diff": ("box", "contracts.c02:locked_colors:locked_colors_arg_sets", None),
+    "c08_plan_preserved_wires_dropped.diff": ("box", "contracts.c12:plan_connections_c:plan_connections_arg_sets", None),
+    "c08_plan_always_succeeds.diff": ("box", "contracts.c12:plan_connections_c:plan_connections_arg_sets", None),
+    "c12_plan_edge_lock_ignored.diff": ("box", "contracts.c12:plan_connections_c:plan_connections_arg_sets", None),
     "c12_populate_ignores_planned_colour.diff": ("box", "contracts.c12:populate:populate_arg_sets", None),
     "c04_populate_feedback_pair_into_tree.diff": ("box", "contracts.c12:populate:populate_arg_sets", None),
     "c12_populate_groups_by_signal_only.diff": ("box", "contracts.c12:populate:populate_arg_sets", None),
